@@ -12,7 +12,7 @@ import (
 type GCase struct {
 	G       *Grammar `json:"g"`
 	In      string   `json:"in"`
-	MemoAll bool     `json:"memoAll"` // also memoize the non-recursive rules
+	MemoAll bool     `json:"memoAll"`          // also memoize the non-recursive rules
 	PreLen  int      `json:"preLen,omitempty"` // > 0: the parsed file follows a file of that length (used by C02)
 }
 
@@ -85,6 +85,11 @@ func checkC01(ci interface{}, st *Stats) error {
 	ref := NewRef(g, in)
 	probe := NewProbe()
 	probe.InLen = len(in)
+	_, _, base := NewCtxAt(in, c.PreLen)
+	probe.Base = base
+	if c.PreLen > 0 {
+		st.Class("file placed after another file")
+	}
 	b := Build(g, BuildOpts{MemoRules: c.memoRules(), Probe: probe})
 	type q struct {
 		got  TreeSet
@@ -93,25 +98,30 @@ func checkC01(ci interface{}, st *Stats) error {
 	res := make([][]q, len(g.Rules))
 	lrRules := leftRecursiveRules(g)
 	nontrivial := false
+	trims := hasKind(g, KLTrim) || hasKind(g, KRTrim)
+	if trims {
+		// whitespace trimming is followed on the span level: which end offsets a rule reaches
+		st.Class("grammar with whitespace trimming (span level)")
+	}
 	for nt := range g.Rules {
 		res[nt] = make([]q, len(in)+1)
 		for i := 0; i <= len(in); i++ {
-			ctx, f := NewCtx(in)
+			ctx, f, _ := NewCtxAt(in, c.PreLen)
 			pn, _, berr := parseGuarded(b.NT[nt], ctx, data.EmptyIntMap, f.Pos(i))
 			if berr != nil {
 				return fmt.Errorf("N%d@%d does not terminate within the re-entry bound: %v", nt, i, berr)
 			}
-			val := NewValidator(ref, 1)
+			val := NewValidator(ref, base)
 			got := TreeSet{}
 			var ends bits
 			for _, alt := range alternatives(pn) {
-				r := RenderNode(alt, 1)
-				e := int(alt.ReaderPos()) - 1
-				if int(alt.Pos())-1 != i || e < i || e > len(in) {
+				r := RenderNode(alt, base)
+				e := int(alt.ReaderPos()) - base
+				if (int(alt.Pos())-base != i && !trims) || int(alt.Pos())-base < i || e < i || e > len(in) {
 					return fmt.Errorf("N%d@%d returned a tree with a span outside [%d,%d]: %s", nt, i, i, len(in), r)
 				}
-				if !val.Valid(g.Rules[nt], alt, i) {
-					return fmt.Errorf("N%d@%d returned a tree that is no derivation of the rule: %s (all: %s)", nt, i, r, RenderResult(pn, 1))
+				if !trims && !val.Valid(g.Rules[nt], alt, i) {
+					return fmt.Errorf("N%d@%d returned a tree that is no derivation of the rule: %s (all: %s)", nt, i, r, RenderResult(pn, base))
 				}
 				got[r] = e
 				ends |= 1 << uint(e)
@@ -172,6 +182,10 @@ func init() {
 				o.ExtraMemo = 4
 			}
 			o.Share = rapid.Bool().Draw(t, "share")
+			o.SeqOpts = rapid.IntRange(0, 2).Draw(t, "seqopts") == 1
+			o.RuleNames = rapid.IntRange(0, 3).Draw(t, "rulenames") == 1
+			o.Names = rapid.IntRange(0, 2).Draw(t, "names") == 1 // names must not change results
+			o.RefTrims = rapid.IntRange(0, 3).Draw(t, "reftrims") == 0
 			g := GenGrammar(t, o)
 			memoAll := rapid.Bool().Draw(t, "memoAll")
 			if rapid.IntRange(0, 3).Draw(t, "alias") == 0 {
@@ -181,7 +195,11 @@ func init() {
 				g.number()
 				memoAll = true
 			}
-			return &GCase{G: g, In: GenInput(t, g, o), MemoAll: memoAll}
+			pre := 0
+			if rapid.IntRange(0, 4).Draw(t, "placed") == 2 {
+				pre = rapid.SampledFrom([]int{1, 3, 17, 300, 65533, 65536, 70000, 140000}).Draw(t, "preLen")
+			}
+			return &GCase{G: g, In: GenInput(t, g, o), MemoAll: memoAll, PreLen: pre}
 		},
 		Check: checkC01,
 	})
